@@ -146,8 +146,7 @@ def showOptInt : Option Int → String
   | some x => toString x
   | none => "?"
 
-def Clause.text (impl : String) : Clause → String
-  | .badObs => s!"bad-observation: {impl}"
+def Clause.text : Clause → String
   | .notClosed k T => s!"closes_iff_T_consecutive: pings {k + 1 - T}..{k} all failed (threshold {T}) but the session was not closed"
   | .closedAfterAnswer c n start T => s!"answer_resets: closed at {c} right after ping {n} (issued at {start}), which the peer answers within its ping timeout (threshold {T}); a peer that answers is never closed by keep-alive"
   | .closedFewFails c m T => s!"answer_resets: closed at {c} after only {m} consecutive failed pings (threshold {T}); an answered ping resets the count"
@@ -190,8 +189,8 @@ def judge (sc : Scenario) (impl : String) : Verdict :=
   let o := parseObs impl
   let m := modelObs sc (o.bind (·.sess))
   let viol : Option String := match o with
-    | none => some (Clause.text impl .badObs)
-    | some o => (monitor sc o).map (Clause.text impl)
+    | none => some s!"bad-observation: {impl}"
+    | some o => (monitor sc o).map Clause.text
   { model := renderObs m, violated := viol <|> selfCheck m }
 
 def engine : Engine Unit where
